@@ -56,6 +56,8 @@ class BSplineBasis:
         if n < 2*p:
             raise ValueError('knot vector has too few elements')
         if periodic >= 0:
+            if n < p + k + 1:
+                raise ValueError('knot vector has too few elements')
             for i in range(p + k - 1):
                 if abs((knots[i + 1] - knots[i]) - (knots[-p - k + i ] - knots[-p - k - 1 + i])) > state.knot_tolerance:
                     raise ValueError('periodic knot vector is mis-matching at the start/end')
